@@ -58,7 +58,7 @@ pub fn generate(a: &Args) {
             let exact = (nc * wc + nr - 1) / nr;
             for &wr in &[exact, exact + 1] {
                 for uniform in [false, true] {
-                    for &mg in &[None, Some(4usize), Some(6), Some(8)] {
+                    for &mg in &[None, Some(4usize), Some(5), Some(6), Some(7), Some(8)] {
                         for &(bc, bt) in &[(0usize, 0usize), (2, 5)] {
                             if !th && (mcfgs.len() % 3 != (a.seed % 3) as usize) && !(bt > 0 && !uniform && wr > exact) { mcfgs.push(MknConfig { nrows: 0, ncols: 0, wr: 0, wc: 0, backtrack_cols: 0, backtrack_trials: 0, min_girth: None, girth_trials: 0, fill_policy: FillPolicy::Random }); continue; }
                             mcfgs.push(MknConfig { nrows: nr, ncols: nc, wr, wc, backtrack_cols: bc, backtrack_trials: bt, min_girth: mg,
